@@ -809,6 +809,14 @@ impl rustc_driver::Callbacks for Facts {
                 }
             }
             root.push(("reachable", J::A(pubs)));
+            // nameable from outside the crate (re-export level): what a user can actually call
+            let mut exported = Vec::new();
+            for id in tcx.hir_crate_items(()).definitions() {
+                if ev.is_exported(id) {
+                    exported.push(s(path(tcx, id.to_def_id())));
+                }
+            }
+            root.push(("exported", J::A(exported)));
         }
 
         // ---- local MIR bodies
